@@ -49,3 +49,35 @@ Proof.
   intros H. destruct (ok_deq_live _ H fair_witness) as (x & m' & E); try (vm_compute; congruence).
   vm_compute in E. discriminate.
 Qed.
+
+(* ------------------------------------------------------------------------------------------
+   BoundedMailbox after Dispose() (the actor stopped itself with messages left): the Workiva ring
+   keeps its length but Get fails for ever.  In the interface: IsEmpty() = (Len()==0) ignores the
+   disposed flag while Dequeue() returns nil.  It breaks the contract, hence a turn on it reclaims
+   for ever (the worker never leaves the stopped actor). *)
+Record bdisp_t := MkBd { bd_q : fifo_t; bd_disposed : bool }.
+Definition bounded_disposable (fixed : bool) : mbox := {|
+  mb_t := bdisp_t;
+  mb_init := MkBd [] false;
+  mb_reserve := fun m x => if bd_disposed m then None else Some (MkBd (bd_q m ++ [(x, false)]) false);
+  mb_publish := fun m x => MkBd (fifo_publish (bd_q m) x) (bd_disposed m);
+  mb_deq := fun m => if bd_disposed m then (None, m)
+                     else match bd_q m with (x, true) :: r => (Some x, MkBd r false) | _ => (None, m) end;
+  mb_empty := fun m => (fixed && bd_disposed m) || match bd_q m with (_, true) :: _ => false | _ => true end;
+  mb_pend := fun m => if bd_disposed m then [] else map fst (bd_q m);     (* Dispose drops what is left *)
+  mb_unpub := fun m => if bd_disposed m then [] else map fst (filter (fun e => negb (snd e)) (bd_q m));
+|}.
+(* two published messages left, then Dispose() *)
+Definition disposed_witness : bdisp_t := MkBd [(2, true); (3, true)] true.
+
+Theorem disposed_bounded_refuted :
+  mb_pend (bounded_disposable false) disposed_witness = [] /\
+  mb_empty (bounded_disposable false) disposed_witness = false /\
+  mb_deq (bounded_disposable false) disposed_witness = (None, disposed_witness) /\
+  ~ mbox_ok (bounded_disposable false) /\
+  (* with IsEmpty() = IsDisposed() || Len()==0 the disposed mailbox reports empty *)
+  mb_empty (bounded_disposable true) disposed_witness = true.
+Proof.
+  repeat split; try (vm_compute; reflexivity).
+  intros H. pose proof (ok_empty_live _ H disposed_witness eq_refl) as E. vm_compute in E. discriminate.
+Qed.
